@@ -8,17 +8,19 @@ import (
 	"verif/mc/model"
 )
 
-func seekT(sub, tgt string) model.Op   { return model.Op{K: "seekT", Sub: sub, Tgt: tgt} }
-func stream(sub, where, sel string) model.Op { return model.Op{K: "stream", Sub: sub, Tgt: where, Sel: sel} }
+func seekT(sub, tgt string) model.Op { return model.Op{K: "seekT", Sub: sub, Tgt: tgt} }
+func stream(sub, where, sel string) model.Op {
+	return model.Op{K: "stream", Sub: sub, Tgt: where, Sel: sel}
+}
 func pullW(sub string, max int) model.Op { return model.Op{K: "pull", Sub: sub, Max: max, Tgt: "wait"} }
 func reconfig(sub, what string) model.Op { return model.Op{K: "reconfig", Sub: sub, Tgt: what} }
-func snap(sub, name string) model.Op   { return model.Op{K: "snap", Sub: sub, Name: name} }
-func seekS(sub, name string) model.Op  { return model.Op{K: "seekS", Sub: sub, Name: name} }
-func sweep() model.Op                  { return model.Op{K: "sweepDL", Max: 100} }
-func delSub(s string) model.Op         { return model.Op{K: "deleteSub", Sub: s} }
-func mkSub(s string) model.Op          { return model.Op{K: "createSub", Sub: s} }
-func delTopic(t string) model.Op       { return model.Op{K: "deleteTopic", Topic: t} }
-func mkTopic(t string) model.Op        { return model.Op{K: "createTopic", Topic: t} }
+func snap(sub, name string) model.Op     { return model.Op{K: "snap", Sub: sub, Name: name} }
+func seekS(sub, name string) model.Op    { return model.Op{K: "seekS", Sub: sub, Name: name} }
+func sweep() model.Op                    { return model.Op{K: "sweepDL", Max: 100} }
+func delSub(s string) model.Op           { return model.Op{K: "deleteSub", Sub: s} }
+func mkSub(s string) model.Op            { return model.Op{K: "createSub", Sub: s} }
+func delTopic(t string) model.Op         { return model.Op{K: "deleteTopic", Topic: t} }
+func mkTopic(t string) model.Op          { return model.Op{K: "createTopic", Topic: t} }
 
 func d(tier string, quick, thorough int) int {
 	if tier == "thorough" {
